@@ -20,6 +20,12 @@ def run(sid):
     m = re.search(r"demo clean exit=(\d+), demo changed exit=(\d+), tests: (.*)", out)
     viol = [l for l in out.splitlines() if "VIOLATION" in l]
     summary = [l.strip() for l in out.splitlines() if "tier=" in l]
+    failed = []
+    for l in out.splitlines():
+        if "failed obligation:" in l:
+            ob = l.split("failed obligation:", 1)[1].split(" :: ")[0].strip()
+            if ob not in failed:
+                failed.append(ob)
     meta = {
         "id": sid,
         "breaks_property": prop,
@@ -34,6 +40,8 @@ def run(sid):
         },
         "what_was_run": f"tools/seedcheck.sh seeded/{sid} {prop}  (scratch copy of /repo's tracked files + patch.diff; demo.py before/after; pytest; ./check {prop} with VERIF_REPO=<copy>)",
         "check_result": summary,
+        "failed_obligations": failed[:6],
+        "failed_obligations_total": len(failed),
         "violation_lines": len(viol),
         "with_failing_input_replayed": sum(1 for l in viol if "no-failing-input-found" not in l),
         "caught": bool(viol),
@@ -48,7 +56,7 @@ if __name__ == "__main__":
     if "-j" in sys.argv:
         j = int(sys.argv[sys.argv.index("-j") + 1])
         args = [a for a in args if a != str(j)]
-    ids = args or sorted(os.listdir(os.path.join(ROOT, "seeded")))
+    ids = args or [x for x in sorted(os.listdir(os.path.join(ROOT, "seeded"))) if x != "C01-B"]     # C01-B: see its meta.json (neutralised by a later fix)
     with ThreadPoolExecutor(j) as ex:
         for sid, caught, rep, val in ex.map(run, ids):
             print(f"{sid}: caught={caught} replayed-input={rep} valid={all(bool(v) for v in val.values())}", flush=True)
